@@ -96,6 +96,19 @@ def init_ghost(x, st: St):
 
 def module_constant(x, mod, name, node):
     """module-level NAME = <literal> ; only literals are evaluated"""
+    if isinstance(node, ast.Dict) and node.keys and all(
+            isinstance(k, ast.Constant) and isinstance(k.value, str) for k in node.keys) and all(
+            isinstance(v, ast.Name) or (isinstance(v, ast.Tuple) and v.elts and isinstance(v.elts[0], ast.Name))
+            for v in node.values):
+        # table of functions (PARSER_FUNCTIONS): key -> function name / (function name, flag)
+        tab = {}
+        for k, v in zip(node.keys, node.values):
+            if isinstance(v, ast.Name):
+                tab[k.value] = (v.id, None)
+            else:
+                flag = v.elts[1].value if len(v.elts) > 1 and isinstance(v.elts[1], ast.Constant) else None
+                tab[k.value] = (v.elts[0].id, flag)
+        return V("ftable", {"name": f"{mod.name}.{name}", "table": tab})
     try:
         c = ast.literal_eval(node)
     except Exception:
@@ -149,6 +162,9 @@ def compare(x, st, op, a: V, b: V, node):
         return [(st, x.unsupported("is-comparison", node))]
     if opn in ("Eq", "NotEq"):
         t = equal(x, st, a, b)
+        listy = ("ref", "strlist", "tuple", "sseq", "lib", "set", "cdict", "intlist")
+        if t is None and a.k in listy and b.k in listy:
+            t = z3.Bool(fresh_name("eq"))     # container equality: total, value unknown
         if t is None:
             if x.mode == "frame" or "opq" in (a.k, b.k) or "float" in (a.k, b.k):
                 t = z3.Bool(fresh_name("eq"))
@@ -261,6 +277,13 @@ def contains(x, st, cont: V, item: V, node):
             if all(p is not None for p in parts):
                 return z3.Or(*parts) if parts else z3.BoolVal(False)
         return z3.Bool(fresh_name("in"))
+    if cont.k == "ftable":
+        t = x.as_str(item)
+        if t is not None:
+            c = x.const_of(item)
+            if c is not None:
+                return z3.BoolVal(c[0] in cont.t["table"])
+            return z3.Function("has!" + cont.t["name"], S, z3.BoolSort())(t)
     if cont.k == "smap":
         return smap_has(x, cont, item)
     if cont.k == "sset":
@@ -405,6 +428,9 @@ def binop(x, st, op, a: V, b: V, node, inplace=False):
             return [(st, fresh("float"))]
         if a.k == "tuple" and b.k == "opq" or a.k == "opq" and b.k == "tuple":
             return [(st, vopq("tupcat"))]
+    if opn == "Mult" and ((a.k in ("strlist", "ref", "tuple") and b.k in ("int", "bool")) or
+                          (b.k in ("strlist", "ref", "tuple") and a.k in ("int", "bool"))):
+        return [(st, x.alloc(st, HList(None, "str" if "strlist" in (a.k, b.k) else "opq")))]
     if opn in ("Sub", "Mult") and a.k in ("int", "bool") and b.k in ("int", "bool"):
         ia, ib = x.as_int(a), x.as_int(b)
         return [(st, vint(ia - ib if opn == "Sub" else ia * ib))]
@@ -636,6 +662,20 @@ def index(x, st, a: V, i: V, node):
             return x.check_v(st, z3.BoolVal(False), "KeyError", node, lambda s: [(s, vopq())])
         has = contains(x, st, a, i, node)
         return x.check_v(st, has, "KeyError", node, lambda s: [(s, vopq("cdv"))])
+    if a.k == "ftable":
+        has = contains(x, st, a, i, node)
+        cbname = getattr(x.c, "callbacks", {}).get("fn", "parser_function")
+        fnv = V("func", ("cb", "fn", cbname))
+        flags = {fl for _, fl in a.t["table"].values() if fl is not None}
+
+        def val(s):
+            alts = [(z3.Not(z3.Bool(fresh_name("tuple_entry"))), fnv)]
+            istup = z3.Not(alts[0][0])
+            alts = [(z3.Not(istup), fnv)]
+            for fl in sorted(flags, key=repr):
+                alts.append((istup, V("tuple", (fnv, from_const(x, s, fl)))))
+            return x.choices(s, alts)
+        return x.check_v(st, has, "KeyError", node, val)
     if a.k == "match":
         return match_group(x, st, a, [i], node)
     if a.k == "opq" or x.mode == "frame":
